@@ -27,8 +27,8 @@ REACH = [
     "insights/core/plugins.py::rule.process",
 ]
 PLAN = {
-    "quick": {"shards": 8, "cases": 14, "timeout_s": 600, "min_evaluations": 3000,
-              "min_counters": {"faults_injected": 3000, "exceptions_recorded": 1500}},
+    "quick": {"shards": 8, "cases": 42, "timeout_s": 600, "min_evaluations": 9000,
+              "min_counters": {"faults_injected": 9000, "exceptions_recorded": 4500}},
     "thorough": {"shards": 16, "cases": 250, "timeout_s": 3000, "min_evaluations": 100000,
                  "min_counters": {"faults_injected": 100000}},
 }
